@@ -83,3 +83,8 @@ m("underscore_declared", ["C20"], BI, "    if name == \"_\" {\n        return Ok
 m("str_index_unchecked", ["C02", "C11"], EV, "                        match s.get(index) {\n                            Some(v) => value::new_str(vec![*v]),", "                        match Some(&s[index]) {\n                            Some(v) => value::new_str(vec![*v]),")
 # C03
 m("lexer_unwrap_eof", ["C03"], LX, "        let char2 = self.scanner.peek_char()?;\n        self.scanner.next_char();\n\n        // Here we handle the matching of double-symbol tokens that don't have", "        let char2 = self.scanner.peek_char().unwrap();\n        self.scanner.next_char();\n\n        // Here we handle the matching of double-symbol tokens that don't have")
+m("comment_swallows_newline", ["C09"], LX, "                while let Some(c_) = self.scanner.peek_char() {\n                    if c_ == '\\n' {\n                        break;\n                    }\n                    self.scanner.next_char();\n                }", "                while let Some(c_) = self.scanner.peek_char() {\n                    self.scanner.next_char();\n                    if c_ == '\\n' {\n                        break;\n                    }\n                }")
+m("string_newline_no_line", ["C18"], LX, "                    } else {\n                        chars.push(c);\n                    }\n                },\n                StrScanState::Escape", "                    } else {\n                        if c == '\\n' { self.scanner.line_back(); }\n                        chars.push(c);\n                    }\n                },\n                StrScanState::Escape")
+M[-1]["extra"] = [(SC, "    pub fn loc(&mut self) -> (usize, usize) {", "    pub fn line_back(&mut self) {\n        self.line -= 1;\n    }\n\n    pub fn loc(&mut self) -> (usize, usize) {")]
+m("cr_resets_col", ["C18", "C03"], SC, "            if c == '\\n' {\n                self.line += 1;\n                self.col = 0;\n            } else {", "            if c == '\\n' {\n                self.line += 1;\n                self.col = 0;\n            } else if c == '\\r' {\n                self.col = 0;\n            } else {")
+m("call_loc_from_args", ["C18"], PA, "    <loc:@L> <expr:ExprPrecedence5> \"(\" <args:ArgList> \")\" =>\n        RawExpr::Call{func: Box::new((expr, loc)), args},", "    <loc:@L> <expr:ExprPrecedence5> <l2:@L> \"(\" <args:ArgList> \")\" =>\n        RawExpr::Call{func: Box::new((expr, if args.len() > 2 { l2 } else { loc })), args},")
